@@ -120,8 +120,16 @@ def finish(ctx, meta, extra=None):
     unlisted, listed = [], []
     for f in ctx.findings:
         (listed if f.key() in kmap else unlisted).append(f)
-    os.makedirs(os.path.join(VERIF, "evidence"), exist_ok=True)
+    evdir = os.environ.get("VERIF_EVIDENCE_DIR") or os.path.join(VERIF, "evidence")
+    os.makedirs(evdir, exist_ok=True)
     code = 0
+    seen_keys = set()
+    uniq = []
+    for f in unlisted:
+        if f.key() not in seen_keys:
+            seen_keys.add(f.key())
+            uniq.append(f)
+    unlisted = uniq
     for f in listed:
         print(f"KNOWN-FINDING: property={ctx.pid} {f.rule} {f.where} [{f.construct}] {kmap[f.key()].get('what', f.msg)}")
     if ctx.errors:
@@ -129,7 +137,7 @@ def finish(ctx, meta, extra=None):
             print(f"ANALYSIS-ERROR property={ctx.pid} {e}")
         code = 2
     if unlisted:
-        rdir = os.path.join(VERIF, "evidence", "replay")
+        rdir = os.path.join(evdir, "replay")
         os.makedirs(rdir, exist_ok=True)
         for f in unlisted:
             h = hashlib.sha1(repr(f.key()).encode()).hexdigest()[:10]
@@ -167,7 +175,7 @@ def finish(ctx, meta, extra=None):
         "assumptions": meta.get("assumptions", []),
         "wall_s": round(wall, 3), "violations": len(unlisted),
     }
-    with open(os.path.join(VERIF, "evidence", f"{ctx.pid}.json"), "w") as fh:
+    with open(os.path.join(evdir, f"{ctx.pid}.json"), "w") as fh:
         json.dump(ev, fh, indent=1, default=str)
     if not ctx.quiet:
         print(f"{ctx.pid} {ctx.tier}: {ctx.discharged}/{ctx.obligations} obligations discharged over "
